@@ -351,6 +351,33 @@ def check(case):
                 for v in var_names:
                     if not close(float(rtc.loc[t, v]), rhs_rows[t][v]):
                         return outcome(False, "wrong-value", symptom="wrong-value:rhs_tc", detail=f"rhs_tc[{t},{v}]={rtc.loc[t, v]} expected {rhs_rows[t][v]}")
+        # the model after its parameter values were changed is a well-formed model too: every number above came from
+        # a warm model, now two parameters get new values (one by update, one by scaling) and a state is asked again
+        import copy
+
+        spec2 = copy.deepcopy(spec)
+        plain = [c for c in spec2["decl"] if c["kind"] == "parameter" and "value" in c]
+        if len(plain) >= 2:
+            plain[0]["value"] = plain[0]["value"] * 1.5 + 0.25
+            plain[1]["value"] = plain[1]["value"] * 0.5
+            m.update_parameter(plain[0]["name"], plain[0]["value"])
+            m.scale_parameter(plain[1]["name"], 0.5)
+            ref2 = Ref(spec2)
+            st_all, t = POINTS[1]
+            state = {v: st_all[v] for v in var_names}
+            exp2 = ref2.rhs(state, t)
+            got2 = m(t, [state[v] for v in var_names])
+            named2 = m.get_right_hand_side(state, t)
+            for v, g in zip(var_names, got2, strict=True):
+                if not close(float(g), exp2[v]) or not close(float(named2[v]), exp2[v]):
+                    return outcome(False, "wrong-value", symptom="wrong-value:after-parameter-update", nontrivial=nontrivial,
+                                   detail=f"after update_parameter({plain[0]['name']}) and scale_parameter({plain[1]['name']}): d{v}/dt = {g} / {named2[v]} expected {exp2[v]}")
+            exp_all2 = ref2.all_values(state, t, readouts=True)
+            args2 = m.get_args(state, t, include_readouts=True)
+            for n, e in exp_all2.items():
+                if not close(float(args2[n]), e):
+                    return outcome(False, "wrong-value", symptom="wrong-value:after-parameter-update", nontrivial=nontrivial,
+                                   detail=f"after the parameter updates: args[{n}]={args2[n]} expected {e}")
     except Exception as exc:  # the model is well-formed: any exception is a failure of the property
         import traceback
 
